@@ -257,6 +257,7 @@ def _temporal(ctx, env, nm, vals, variant):
         P.add_timed_goal(GlobalStartTiming(3), em.Not(F(g.p, [em.ObjectExp(g.o2)])))
         P.add_timed_effect(GlobalStartTiming(tvio.Fraction(5, 2)), F(g.b), em.TRUE())
         P.add_timed_effect(GlobalStartTiming(7), F(g.n), C("c2"))
+        P.add_increase_effect(GlobalStartTiming(0), F(g.n), C("d"))  # an increase right at the start is not an initial value
     else:
         da.set_left_open_duration_interval(tvio._num(em, dur_lo), em.Plus(tvio._num(em, dur_hi), em.Int(1)))
         da.add_condition(StartTiming(), em.Equals(F(g.w, [x]), em.ObjectExp(g.o1)))
@@ -267,6 +268,8 @@ def _temporal(ctx, env, nm, vals, variant):
         ia = g.mk_action("a2", [12], [10, 2, 14], 10)
         P.add_action(ia)
         P.add_timed_effect(GlobalStartTiming(4), F(g.w, [em.ObjectExp(g.o2)]), em.ObjectExp(g.o1))
+        P.add_decrease_effect(GlobalStartTiming(0), F(g.n), C("d"))
+        P.add_increase_effect(GlobalStartTiming(6), F(g.n), em.Int(1))
     P.add_action(da)
     return g
 
